@@ -27,7 +27,7 @@ TRUSTED = ["CPython gc / sys / threading / warnings / traceback module attribute
 
 OPTS = ["gc", "gcopt", "coverage", "profile", "buffer", "werror", "postmortem"]
 ENDINGS = ["pass", "fail", "stop", "hook-raises", "interrupt", "ttd-raises-skip", "ttd-raises-fail", "ttd-raises-interrupt",
-           "ttd-raises-failskip", "chdir", "rebind-err", "rebind-out", "rebind-both"]
+           "ttd-raises-failskip", "chdir", "rebind-err", "rebind-out", "rebind-both", "list"]
 FIELDS = ["gcThr", "gcDbg", "tbFormat", "tbPrint", "trace", "thrTrace", "setTrace", "profile", "warn", "stdout", "stderr"]
 
 
@@ -39,7 +39,7 @@ def make_world(ctx, ending, idx, opts=()):
              "ttd-raises-fail": ["fail", "subFail2"], "ttd-raises-interrupt": ["pass"],
              "ttd-raises-failskip": ["subFailThenSkip", "failThenSkipTearDown"], "chdir": ["pass", "fail"],
              "rebind-err": ["fail", "error", "pass"], "rebind-out": ["fail", "error", "pass"],
-             "rebind-both": ["fail", "error", "pass"]}[ending]
+             "rebind-both": ["fail", "error", "pass"], "list": ["pass", "fail"]}[ending]
     w = worlds.gen_world(rng, n_layers=2, tests_per_layer=(1, 2), kinds=kinds, p_fault=0.0, p_write=0.3)
     if ending == "hook-raises":
         for l in w["layers"]:
@@ -99,6 +99,9 @@ def run_case(ctx, opts, ending, idx, pre_trace=False):
         args.append("--buffer")
     if ending == "stop":
         args.append("-x")
+    if ending == "list":
+        # a run that only lists the tests is an in-process run that returns, too
+        args.append("--list-tests")
     if "postmortem" in opts and ending in ("pass", "interrupt"):
         # -D with nothing to debug (no test fails): the tests run through another loop of the runner
         args.append("-D")
@@ -150,7 +153,8 @@ def run(ctx):
     cases = [(c, e) for c in combos for e in ENDINGS]
     if ctx.quick():
         cases = ctx.rng.sample(cases, 40) + [(tuple(OPTS), e) for e in ENDINGS] + \
-            [(("gc", "gcopt", "profile"), "chdir"), (("gc", "profile"), "chdir"), (("gcopt", "profile", "buffer"), "chdir")]
+            [(("gc", "gcopt", "profile"), "chdir"), (("gc", "profile"), "chdir"), (("gcopt", "profile", "buffer"), "chdir"),
+             ((), "list"), (("gc", "gcopt"), "list"), (("coverage", "buffer"), "list")]
     with concurrent.futures.ThreadPoolExecutor(max_workers=10) as ex:
         results = list(ex.map(lambda a: run_case(ctx, a[1][0], a[1][1], a[0]), enumerate(cases)))
     queries = []
